@@ -837,23 +837,40 @@ func unwrapSynthetic(f *ssa.Function) *ssa.Function {
 
 // pureKey gives a canonical string for side-effect-free expressions over immutable SSA values, so that two
 // syntactically separate evaluations of e.g. `len(val) > 0` are recognised as the same condition.
-func pureKey(v ssa.Value) string {
+func pureKey(v ssa.Value) string { return pureKeyS(v, nil) }
+
+// pureKeyS is pureKey with leaves replaced according to subst (parameters of a helper by the actuals of a call).
+func pureKeyS(v ssa.Value, subst map[ssa.Value]ssa.Value) string {
+	if subst == nil {
+		return pureKeyC(v, nil)
+	}
+	return pureKeyC(v, []map[ssa.Value]ssa.Value{subst})
+}
+
+// pureKeyC applies a chain of substitutions, one per call level going outwards: a leaf found in chain[0] is replaced
+// by its actual, which is then keyed with the rest of the chain.
+func pureKeyC(v ssa.Value, chain []map[ssa.Value]ssa.Value) string {
 	v = resolve(v)
+	if len(chain) > 0 {
+		if a, ok := chain[0][v]; ok {
+			return pureKeyC(a, chain[1:])
+		}
+	}
 	switch x := v.(type) {
 	case *ssa.Const:
 		return "const:" + x.String()
 	case *ssa.BinOp:
-		return "(" + pureKey(x.X) + " " + x.Op.String() + " " + pureKey(x.Y) + ")"
+		return "(" + pureKeyC(x.X, chain) + " " + x.Op.String() + " " + pureKeyC(x.Y, chain) + ")"
 	case *ssa.UnOp:
 		if x.Op == token.NOT {
-			return "!" + pureKey(x.X)
+			return "!" + pureKeyC(x.X, chain)
 		}
 	case *ssa.Call:
 		if b, ok := x.Common().Value.(*ssa.Builtin); ok && (b.Name() == "len" || b.Name() == "cap") {
-			return b.Name() + "(" + pureKey(x.Common().Args[0]) + ")"
+			return b.Name() + "(" + pureKeyC(x.Common().Args[0], chain) + ")"
 		}
 	case *ssa.Convert:
-		return "conv(" + pureKey(x.X) + ")"
+		return "conv(" + pureKeyC(x.X, chain) + ")"
 	}
 	return fmt.Sprintf("%p", v)
 }
@@ -904,8 +921,17 @@ func condKey(e edge) (string, bool) {
 // accepted by good. A path is infeasible if it takes an edge whose pure condition contradicts a condition on an
 // edge that dominates x. When false, a witness path is returned.
 func allPathsPass(x *ssa.BasicBlock, good func(e edge) bool) (bool, []*ssa.BasicBlock) {
+	return allPathsPassWith(x, good, nil)
+}
+
+// allPathsPassWith: extra holds further pure conditions (key -> polarity) known to hold whenever x matters - the
+// conditions that guard the instruction of interest inside a helper called at x, translated into x's frame.
+func allPathsPassWith(x *ssa.BasicBlock, good func(e edge) bool, extra map[string]bool) (bool, []*ssa.BasicBlock) {
 	fn := x.Parent()
 	need := map[string]bool{}
+	for k, w := range extra {
+		need[k] = w
+	}
 	for _, b := range fn.Blocks {
 		if ifOf(b) == nil {
 			continue
